@@ -6,7 +6,7 @@ from common import Prop, natlit
 
 from circuits import BaseComponent, Component, Event, handler
 
-NAMES = ['ea', 'eb', 'ec']
+NAMES = ['ea', 'eb', 'ec', 'ed']
 CHANS = ['*', 'a', 'b']
 EVCLS = {n: type(n, (Event,), {}) for n in NAMES}
 NCOMP = 5
@@ -187,7 +187,7 @@ class C01(Prop):
         for hid in range(8):
             kind = rng.random()
             if kind < 0.6:
-                names = rng.sample(NAMES, rng.choice([1, 1, 1, 2]))
+                names = rng.sample(NAMES, rng.choice([1, 1, 1, 2, 3, 4]))
             else:
                 names = []
             chs = [None, None, '*', 'a', 'b', {'comp': rng.randrange(NCOMP)}]
@@ -359,7 +359,7 @@ class C01(Prop):
     def model_term(self, case):
         if case.get('k') == 'cls':
             classes = build_classes(case, [])
-            return 'obs_classes %s [0;1;2]%%nat' % class_mro_term(case, classes)
+            return 'obs_classes %s [0;1;2;3]%%nat' % class_mro_term(case, classes)
         hs = {h['hid']: h for h in case['handlers']}
         cs = '[%s]' % '; '.join('(%s, %s)' % (natlit(i), chan_term(ch)) for i, ch in enumerate(case['comps']))
         ops = []
